@@ -48,8 +48,8 @@ class C13(Prop):
         self.finding_matchers = {"c13_no_finite_value": self.no_finite_value}
 
     def no_finite_value(self, case, io):
-        if case["stream"] != "numeric" or "err" not in io:
-            return False
+        if case["stream"] != "numeric":
+            return False  # (an error or, with both signs present, NaN edges from inf - inf: the same missing finite range)
         vals = [v for v in self.values(case) if v is not None and not math.isnan(v)]
         return bool(vals) and all(math.isinf(v) for v in vals)
 
